@@ -66,3 +66,166 @@ PROPS['C16'] = dict(
     rule='the tabulation of every finite-domain function is exhaustive (translator, re-proved by Coq each run); the three blocker accessors additionally run on every combination of their relevant squares x random noise elsewhere against the model and the movement rule; distinct = (colour, square, blockers) triples',
     exhaustive=True,
 )
+
+PROPS['C13'] = dict(
+    coq_targets=['Proofs/UciText.vo'],
+    scope='all 20480 move values and 64 squares (complete sweeps); all strings (lists of Unicode scalar values) for totality, the prefix law and the decoded value',
+    streams=lambda tier: [dict(stages=[H('uci', sz(tier, 20000, 1500000)), D('uci')], shards=16, min_stat={'uci_moves': 20480, 'uci_squares': 64})],
+    tags=['uci_.*', 'oracle_uci_.*'] + COMMON_MODEL_TAGS,
+    eval_stat='uci_strings',
+    rule='exhaustive: all 20480 moves and 64 squares rendered and re-parsed by the library; plus random / mutated / truncated / over-long / non-ASCII strings through both parsers (under catch_unwind), compared with the model and with the prefix law; distinct = distinct strings that parse',
+    exhaustive=True,
+)
+
+PROPS['C14'] = dict(
+    coq_targets=['Proofs/IterBits.vo', 'Proofs/IterLists.vo', 'Proofs/IterCore.vo', 'Proofs/IterPart.vo', 'Proofs/IterMask.vo', 'Proofs/IterExamples.vo'],
+    scope='all well-formed entry lists, all sequences of masks (each drained to exhaustion) and removals, every reachable iterator state',
+    streams=lambda tier: [dict(stages=[H('iter', sz(tier, 12, 400)), D('iter')], shards=16)],
+    tags=['prop_.*', 'iter_.*', 'size_hint', 'script'] + COMMON_MODEL_TAGS,
+    eval_stat='scripts',
+    rule='playout and set-up positions x 3 random scripts: removals of legal moves (en-passant captures and promotions preferred) and destination sets on the fresh generator, 1-3 random masks each drained to exhaustion, final full mask; len() and size_hint() before every next(); the oracle checks the contract on the implementation output alone (batch = not-yet-yielded legal moves on the mask, len = moves still yielded, removed never yielded, total = legal minus removed exactly once); distinct = scripts with a mask or a removal',
+    assumptions=['the entry list handed to the iterator is well formed (non-empty destination sets < 2^64, no (source,destination) pair twice): provided by move generation (C01)'],
+)
+
+PROPS['C09'] = dict(
+    coq_targets=['Proofs/ZobristKeys.vo', 'Proofs/HashSeparation.vo'],
+    scope='all boards / all builder states paired with each single-component variant; key facts by complete sweeps of the translated Zobrist tables (768 + 8 + 16 + 1 keys)',
+    streams=lambda tier: [dict(stages=[H('zob', sz(tier, 25, 1500)), D('zob')], shards=16, min_stat={'zob_sib_side': 10, 'zob_sib_rights': 10, 'zob_sib_ep': 5, 'zob_sib_piece': 100})],
+    tags=['hash_model', 'oracle_hash_.*', 'zob_line'] + COMMON_MODEL_TAGS,
+    eval_stat='zob_siblings',
+    rule='every playout / set-up position paired with single-component variants built through the builder or a null move (side to move, either colour\'s rights, en-passant file, one piece on one square): hashes must differ; census of all (position, hash) pairs of the run for collisions (statistical clause: exploration only); distinct = distinct base positions',
+    assumptions=['the clause "no more collisions than chance among millions of positions" is statistical: measured by the census, not a theorem'],
+)
+
+# ---- position-stream properties ----------------------------------------------------------
+POS_RULE = ('biased random playouts (captures, checks, double checks, pawn moves, king moves / promotions, '
+            'en-passant-creating pushes preferred) from ~110 roots (initial position, Kiwipete, the 27 perft roots, '
+            'constructed positions for rare branches: en passant exposing the king along a rank / diagonal, pinned '
+            'en-passant capturer, en passant in check, double checks, pins, castling through / into attack, '
+            'promotions with capture and check) plus random sparse set-ups with en-passant situations, with null '
+            'moves interleaved; positions outside PosValid are recognised by the extracted pos_valid and only '
+            'compared model-vs-implementation; distinct_nontrivial = distinct PosValid positions that are in check, '
+            'have a pinned man, en-passant state, a promotion available or are terminal')
+
+def pos_stream(tier, q, t, mode='full'):
+    return dict(stages=[H('pos', sz(tier, q, t), mode), D('pos')], shards=16, min_stat={'valid_positions': 500})
+
+PROPS['C01'] = dict(
+    coq_targets=[],
+    scope='see theorem list; the full refinement statement is kept as C01_full',
+    streams=lambda tier: [pos_stream(tier, 14, 900, 'full')],
+    tags=['moves', 'oracle_moves', 'oracle_dup', 'legal_query.*', 'legal_quick.*', 'len0', 'len_vs_count', 'enumerate_moves', 'overflow', 'size_hint', 'obs_ch', 'obs_pin'] + COMMON_MODEL_TAGS,
+    rule=POS_RULE + '; every 16th position additionally runs Board::legal on all 20480 triples',
+)
+PROPS['C02'] = dict(
+    coq_targets=[],
+    scope='see theorem list',
+    streams=lambda tier: [pos_stream(tier, 14, 900, 'succ')],
+    tags=['succ_model.*', 'succ_flags', 'succ_parse', 'succ_ch', 'succ_pin', 'succ_pcs', 'succ_col', 'succ_comb', 'succ_hash', 'oracle_apply', 'oracle_ep'] + COMMON_MODEL_TAGS,
+    eval_stat='successors',
+    rule=POS_RULE + '; every legal move of every position is applied through both entry points (the in-place one with an unrelated pre-filled output board) and compared with Spec.apply',
+)
+PROPS['C03'] = dict(
+    coq_targets=[],
+    scope='see theorem list',
+    streams=lambda tier: [pos_stream(tier, 14, 900, 'succ')],
+    tags=['obs_.*', 'oracle_checkers', 'oracle_pinned', 'reparse', 'succfs_.*', 'succ_ch', 'succ_pin', 'null_.*', 'nullfs_.*', 'impl_sane'] + COMMON_MODEL_TAGS,
+    rule=POS_RULE,
+)
+PROPS['C04'] = dict(
+    coq_targets=[],
+    scope='see theorem list',
+    streams=lambda tier: [pos_stream(tier, 20, 1200, 'nosucc')],
+    tags=['status_model', 'oracle_status', 'len0', 'len_vs_count', 'moves', 'obs_ch'] + COMMON_MODEL_TAGS,
+    rule=POS_RULE,
+)
+PROPS['C05'] = dict(
+    coq_targets=[],
+    scope='see theorem list',
+    streams=lambda tier: [pos_stream(tier, 14, 900, 'succ')],
+    tags=['oracle_valid_succ', 'oracle_monotone', 'impl_sane', 'sane', 'succ_flags', 'succ_model'] + COMMON_MODEL_TAGS,
+    eval_stat='successors',
+    rule=POS_RULE + '; every successor of every PosValid position must again be PosValid and accepted by is_sane, with rights / men / pawns not growing',
+)
+PROPS['C08'] = dict(
+    coq_targets=[],
+    scope='see theorem list',
+    streams=lambda tier: [pos_stream(tier, 14, 900, 'succ')],
+    tags=['obs_hash', 'succ_hash', 'succfs_hash', 'null_hash', 'nullfs_hash', 'reparse', 'succ_flags'] + COMMON_MODEL_TAGS,
+    eval_stat='successors',
+    rule=POS_RULE + '; the hash of every position reached by moves or null moves is compared with the hash of the same position built from scratch from its neutral encoding (path independence) and std Hash with the FEN re-parse',
+)
+PROPS['C17'] = dict(
+    coq_targets=[],
+    scope='see theorem list',
+    streams=lambda tier: [dict(stages=[H('mirror', sz(tier, 8, 500)), D('mirror')], shards=16, min_stat={'mirror_pairs': 500})],
+    tags=['mirror_.*'] + COMMON_MODEL_TAGS,
+    eval_stat='mirror_pairs',
+    rule=POS_RULE + '; every position is paired with its colour-swapped vertical mirror image (and, without castling rights, its left-right mirror image) built through the neutral encoding; moves, status, checkers, pinned and all successors must be mirror images',
+)
+PROPS['C18'] = dict(
+    coq_targets=[],
+    scope='see theorem list',
+    streams=lambda tier: [pos_stream(tier, 20, 1200, 'nosucc')],
+    tags=['null_.*', 'nullfs_.*'] + COMMON_MODEL_TAGS,
+    eval_stat='null_moves',
+    rule=POS_RULE,
+)
+
+# ---- text / game properties -------------------------------------------------------------
+PROPS['C06'] = dict(
+    coq_targets=['Proofs/FenSplit.vo', 'Proofs/FenPlacement.vo', 'Proofs/FenRoundtrip.vo', 'Proofs/FenWellformed.vo', 'Proofs/FenStd.vo', 'Proofs/FenBoard.vo', 'Proofs/FenCanon.vo'],
+    scope='see theorem list',
+    streams=lambda tier: [
+        dict(stages=[H('fen', sz(tier, 30, 2000)), D('fengen'), H('fenparse'), D('fen')], shards=16, min_stat={'fen_valid_positions': 1000, 'fen_with_ep_field': 5}),
+        dict(stages=[H('builder', sz(tier, 2500, 200000)), D('builder')], shards=16, seed_off=2),
+    ],
+    tags=['fen_.*', 'oracle_fen_.*', 'oracle_builder_.*', 'builder_display_model', 'builder_parse_model', 'model_panic'] + COMMON_MODEL_TAGS,
+    eval_stat='fen_positions',
+    rule='positions along biased playouts (with the square passed over tracked by the harness when the last move was a double push) rendered by the library, re-parsed (6 and 4 fields), compared with the independent standard writer of Spec/Text.v whose text is parsed by the library too; plus arbitrary builder states rendered and re-parsed; distinct = distinct positions with an en-passant field or partial castling rights',
+)
+PROPS['C07'] = dict(
+    coq_targets=['Proofs/PopcntFacts.vo', 'Proofs/AcceptSound.vo', 'Proofs/MoveListCap.vo', 'Proofs/ParseTotal.vo'],
+    scope='see theorem list',
+    streams=lambda tier: [
+        dict(stages=[H('fenfuzz', sz(tier, 4000, 400000)), D('fenfuzz')], shards=16),
+        dict(stages=[H('builder', sz(tier, 4000, 400000)), D('builder')], shards=16, seed_off=1),
+        dict(stages=[H('crowded', sz(tier, 1500, 100000)), D('builder')], shards=16, seed_off=2),
+        dict(stages=[H('fenfuzz', sz(tier, 1500, 60000)), D('fenfuzz')], shards=8, build='debug', seed_off=3),
+        dict(stages=[H('builder', sz(tier, 1500, 60000)), D('builder')], shards=8, build='debug', seed_off=4),
+        dict(stages=[H('crowded', sz(tier, 600, 30000)), D('builder')], shards=8, build='debug', seed_off=5),
+    ],
+    tags=['oracle_panic', 'oracle_accept_.*', 'oracle_unsafe', 'model_overflow', 'model_panic', 'tryfrom_model', 'fen_parse_model', 'builder_parse_model', 'builder_display_model'] + COMMON_MODEL_TAGS,
+    eval_stat='fuzz_texts',
+    rule='mutated / truncated / structured-random FEN-like text and arbitrary Unicode through BoardBuilder::from_str and Board::from_str; arbitrary builder states (any piece anywhere, several kings, junk rights and en-passant file) and crowded boards (up to 55 men) through TryFrom; every accepted board goes through move generation, status, rendering and both move applications two plies deep; release build under catch_unwind and debug-assertion build (unchecked index / push past capacity abort the process there); distinct = distinct accepted inputs',
+)
+PROPS['C10'] = dict(
+    coq_targets=[],
+    scope='see theorem list',
+    streams=lambda tier: [dict(stages=[H('game', sz(tier, 150, 20000), 'mix'), D('game')], shards=16, min_stat={'game_ops': 5000})],
+    tags=['game_.*', 'oracle_game_.*'] + COMMON_MODEL_TAGS,
+    eval_stat='game_ops',
+    rule='random interleavings of legal / illegal / random move attempts, draw offers by either colour, accepts, resignations and draw declarations from ongoing, near-terminal and already-finished start positions; every return value and result / side_to_move / can_declare_draw / log length after every step; distinct = distinct games with at least two accepted actions',
+)
+PROPS['C11'] = dict(
+    coq_targets=[],
+    scope='see theorem list',
+    streams=lambda tier: [
+        dict(stages=[H('game', sz(tier, 5, 300), 'draw'), D('game')], shards=16, min_stat={'games_with_threefold': 3, 'games_with_fifty': 3}),
+        dict(stages=[H('game', sz(tier, 60, 5000), 'mix'), D('game')], shards=16, seed_off=7),
+    ],
+    tags=['oracle_draw_.*', 'game_state_model', 'game_ret_model', 'game_model_panic'] + COMMON_MODEL_TAGS,
+    eval_stat='game_ops',
+    rule='long reversible histories on sparse boards (quiet moves, a taste for returning to earlier positions, castling rights lost midway, occasional irreversible moves) with can_declare_draw after every step and declare_draw attempts, compared with Spec/Draw.v (threefold repetition of placement+turn+rights+en-passant state, or 100 half-moves without pawn move or capture); distinct = distinct games',
+)
+PROPS['C12'] = dict(
+    coq_targets=['Proofs/SanFilter.vo', 'Proofs/SanScan.vo', 'Proofs/SanShape.vo', 'Proofs/SanSweepA.vo', 'Proofs/SanSweepB.vo', 'Proofs/SanSpecShape.vo', 'Proofs/SanRoundtrip.vo', 'Proofs/SanLink.vo', 'Proofs/SanLinkCheck.vo'],
+    scope='see theorem list',
+    streams=lambda tier: [
+        dict(stages=[H('pos', sz(tier, 4, 300), 'nosucc'), D('sangen'), H('sanparse'), D('san')], shards=16, min_stat={'san_spellings': 20000}),
+        dict(stages=[H('san', sz(tier, 20, 2000)), D('sanfuzz')], shards=16, seed_off=4),
+    ],
+    tags=['san_.*', 'oracle_san_.*'] + COMMON_MODEL_TAGS,
+    eval_stat='san_texts',
+    rule='for every legal move of every PosValid playout position all admissible spellings of Spec/Text.v (piece letter, every correct disambiguation, x on captures incl. en passant, promotion letter, truthful + / #, optional " e.p.", O-O / O-O-O) are parsed by the library; plus under-disambiguated and wrong-capture-flag texts, mutated and random strings incl. non-ASCII; distinct = distinct positions',
+)
